@@ -57,7 +57,7 @@ def run(tier, seed):
     n = 0
     for p in progs:
         d = len(p["prog"])
-        variants = ["lazy", "eval_c", "eval_f", "into"] + [f"staged{k}" for k in range(1, d)]
+        variants = ["lazy", "eval_c", "eval_f", "into", "into_wrong"] + [f"staged{k}" for k in range(1, d)]
         for v in variants:
             n += 1
             by_first[OPS.index(p["prog"][0]["op"])].append(dict(id=n, op="program", shapes=[p["leaf"]], prog=p["prog"], variant=v, args=dict(none=True)))
@@ -68,7 +68,7 @@ def run(tier, seed):
     ck.nontrivial_count = len({vlib.canon([p["leaf"], p["prog"]]) for p in progs if len(p["prog"]) >= 2})
     ck.rule = ("programs = every chain of up to 2 operations (thorough: TLC-simulated chains of up to 3) of the alphabet transpose, flip, reshape, tile, reduce(mix), broadcast mix with a second leaf, "
                "roll, expand_dims, pad, with arguments chosen by the program machine from the shape of the intermediate result (invalid steps included: Nothing must propagate), over the leaf shapes of the "
-               "model; every program runs as lazy element access, eval with the row-major and the column-major resolver, eval into a caller-supplied output and staged after every prefix; all are "
+               "model; every program runs as lazy element access, eval with the row-major and the column-major resolver, eval into a caller-supplied output of the right shape, eval into one of the reversed shape (same dimension and element count: it must stay untouched or become the view) and staged after every prefix; all are "
                "validated by TLC against the same denotation, so fused = staged = lazy = eager; non-trivial = distinct programs of depth >= 2")
     ck.exhaustive = quick
     ck.extra.update(programs=len(progs), depth=maxd)
